@@ -193,6 +193,25 @@ def main():
                     ci = coords_of(e, recv)
                     if err is not None or not (ci[2] == 0 or (not isinstance(ci[2], int) and False)):
                         add('SetBytes.infinity', 'the one-byte infinity encoding is not decoded to the point at infinity')
+                    else:
+                        # the result must be a point of the projective curve: Z = 0 forces X = 0 and Y != 0 (the receiver's
+                        # previous coordinates are arbitrary symbolic values here); (X : Y : 0) with X != 0 is not neutral for Add
+                        def modp_zero(v):
+                            if isinstance(v, int):
+                                return v % P == 0
+                            r_ = e.prove_i(v % P == 0)
+                            return True if r_[0] == 'proved' else (False if r_[0] == 'cex' else None)
+
+                        def modp_nonzero(v):
+                            if isinstance(v, int):
+                                return v % P != 0
+                            r_ = e.prove_i(v % P != 0)
+                            return True if r_[0] == 'proved' else (False if r_[0] == 'cex' else None)
+                        zx, ny = modp_zero(ci[0]), modp_nonzero(ci[1])
+                        if zx is False or ny is False:
+                            add('SetBytes.infinity-representative', 'the one-byte infinity encoding decodes to (X : Y : 0) with X != 0 or Y = 0 for some receiver state: not a point of the curve, not neutral for Add')
+                        elif zx is None or ny is None:
+                            unknown.append('infinity-representative')
                 elif err is None:
                     add('SetBytes.accept-length', 'a %d-byte string starting with %d is accepted' % (L, first))
                 elif coords_of(e, recv) != c0:
@@ -327,7 +346,17 @@ func TestVerifReplay(t *testing.T) {
 			if !bytes.Equal(h.Bytes_Unsafe(), b) || !bytes.Equal(h.Bytes(), b) { t.Fatalf("projective representative with leading-zero coordinate encodes differently") }
 		}
 	}
-	// a failed decode must leave the receiver untouched: off-curve, non-canonical, wrong length, wrong first byte
+	// the infinity encoding decoded into receivers that hold finite points: the result must be neutral for Add on both sides
+	for j, enc := range [][]byte{cases[0].p, cases[0].q, cases[6].q} {
+		recv, _ := NewSM2Point().SetBytes(enc)
+		recv.Double(recv)
+		o, err := recv.SetBytes([]byte{0}); if err != nil { t.Fatalf("receiver %%d: infinity encoding refused", j) }
+		p, _ := NewSM2Point().SetBytes(cases[0].p)
+		if got := NewSM2Point().Add(p, o).Bytes(); !bytes.Equal(got, cases[0].p) { t.Fatalf("receiver %%d: P + O != P after decoding 00 into a used receiver", j) }
+		if got := NewSM2Point().Add(o, p).Bytes(); !bytes.Equal(got, cases[0].p) { t.Fatalf("receiver %%d: O + P != P after decoding 00 into a used receiver", j) }
+		if got := NewSM2Point().Add(NewSM2Point().Negate(o), p).Bytes(); !bytes.Equal(got, cases[0].p) { t.Fatalf("receiver %%d: -O + P != P", j) }
+		if got := NewSM2Point().Double(o).Bytes(); !bytes.Equal(got, []byte{0}) { t.Fatalf("receiver %%d: 2O != O", j) }
+	}
 	for j, in := range [][]byte{%s} {
 		recv, _ := NewSM2Point().SetBytes(cases[0].p)
 		before := recv.Bytes()
